@@ -6,7 +6,7 @@
    of the internal tile c. *)
 From Coq Require Import ZArith List Bool.
 Import ListNotations.
-From MP Require Import Grid Grid_proofs TileSvc TileSvc_proofs MetaGrid MetaGrid_proofs.
+From MP Require Import Grid Grid_proofs TileSvc TileSvc_proofs MetaGrid.
 Local Open Scope Z_scope.
 
 (* WMTS (KVP and RESTful): for every grid that _matrix_sets does not skip, every advertised TileMatrix and every
@@ -185,9 +185,9 @@ Proof. exact kml_document_links_exact_l. Qed.
    stored_pixel correspondence and the pixel oracle only. *)
 Theorem served_content_partial :
   forall s srv a r c m q j k,
-    mg_grid m = sg s -> mwf m -> 0 < q ->
+    mg_grid m = sg s -> MetaLemmas.mwf m -> 0 < q ->
     addr_ok s srv a -> client_rect s srv a = Some r -> served s srv a = Some c ->
-    (let '(cx, cy, cz) := c in no_buffer_cut m cx cy cz) ->
+    (let '(cx, cy, cz) := c in MetaLemmas.no_buffer_cut m cx cy cz) ->
     0 <= j < tw (sg s) -> 0 <= k < th (sg s) ->
     model_pixel m q HowMeta c j k = Some (stored_pixel (sg s) q r (tw (sg s), th (sg s)) (0, 0) j k).
 Proof. exact served_content_exact_l. Qed.
@@ -227,3 +227,19 @@ Theorem request_isolation :
     answer_of (run_schedule t srv reqs (pre ++ RHandle i :: post)) i =
     Some (handle_with t srv (reqs i) (rq_spec (reqs i))).
 Proof. exact request_isolation_l. Qed.
+
+(* WMTS with the metres per unit of service/wmts.py (111319.4907932736 for every geographic SRS whatever its ellipsoid,
+   1 otherwise - the constants a WMTS client uses): wmts_address_exact without any hypothesis. *)
+Theorem wmts_address_exact_std :
+  forall s srv latlong m col row r,
+    (s_mpu_n s, s_mpu_d s) = meter_per_unit latlong ->
+    client_rect s srv (AWmts m col row) = Some r ->
+    exists c, served s srv (AWmts m col row) = Some c /\ tile_bbox_c (sg s) c = r.
+Proof. exact wmts_address_exact_std_l. Qed.
+
+(* A cache with several grids (config/loader.py caches()): every tile layer gets the extent computed for ITS grid; without
+   cache coverage and source extents that is the bbox of its own grid - the extent hypothesis of tms_address_exact -
+   whatever the position of the grid in the list. *)
+Theorem multi_grid_cache_extents :
+  forall grids g e, In (g, e) (cache_tile_layers None None grids) -> e = grid_bbox g.
+Proof. exact cache_tile_layers_own_bbox_l. Qed.
